@@ -408,6 +408,20 @@ func (e *Env) Write(toks []string) string {
 	return res + " " + e.Read()
 }
 
+// ValidBatch reports whether every token is a well-formed point.
+func (e *Env) ValidBatch(toks []string) bool {
+	for _, t := range toks {
+		p, err := ParsePt(t)
+		if err != nil {
+			return false
+		}
+		if _, err := p.ToModel(); err != nil {
+			return false
+		}
+	}
+	return len(toks) > 0
+}
+
 // WriteOnly runs Shard.WritePoints and renders only the result ("bad-op" for an
 // ill-formed batch).
 func (e *Env) WriteOnly(toks []string) string {
